@@ -254,31 +254,62 @@ def rule_sib_t1(ctx) -> None:
     else:
         ctx.violation("C09.SIB-T1", f"{fn.qual}/result-positions-agree", fn.loc(), "merge_fn return tuple / caller unpack not found")
     # task keys preserve the caller's graph order
-    tk = [x for x in walk_no_defs(fn.node) if isinstance(x, ast.Call) and call_tail(x) == "append" and src(x.func.value) == "tasks"]
-    okk = bool(tk) and all(isinstance(x.args[0], ast.Tuple) and isinstance(x.args[0].elts[0], ast.Tuple) and src(x.args[0].elts[0].elts[0]) == "idx" for x in tk)
+    # the task list: first argument of run_parallel; the position: the index variable of the enclosing enumerate loop
+    tlists = {c.args[0].id for c in walk_no_defs(fn.node) if isinstance(c, ast.Call) and call_tail(c) == "run_parallel" and c.args and isinstance(c.args[0], ast.Name)}
+    tk = [x for x in walk_no_defs(fn.node) if isinstance(x, ast.Call) and call_tail(x) == "append" and src(x.func.value) in tlists]
+    idx_vars = {l.target.elts[0].id for l in walk_no_defs(fn.node) if isinstance(l, ast.For) and isinstance(l.iter, ast.Call) and dotted(l.iter.func) == "enumerate"
+                and isinstance(l.target, ast.Tuple) and isinstance(l.target.elts[0], ast.Name) and any(y is x for x in tk for st in l.body for y in ast.walk(st))}
+    okk = bool(tk) and all(isinstance(x.args[0], ast.Tuple) and isinstance(x.args[0].elts[0], ast.Tuple) and src(x.args[0].elts[0].elts[0]) in idx_vars for x in tk)
     ctx.check(okk, "C09.SIB-T1", f"{fn.qual}/task-keys-carry-position", fn.loc(), "task keys are (position in active_graphs, graph id)", "task keys do not carry the position in active_graphs")
+
+
+TIER_NAMES = {"exact_semantic", "cluster_semantic", "archive"}
+
+
+def _tier_loops(root: ast.AST) -> List[ast.For]:
+    """loops whose variable is compared with the tier literals"""
+    out = []
+    for x in ast.walk(root):
+        if isinstance(x, ast.For) and isinstance(x.target, ast.Name):
+            v = x.target.id
+            if any(isinstance(y, ast.Compare) and isinstance(y.left, ast.Name) and y.left.id == v and any(const_str(c) in TIER_NAMES for c in y.comparators) for st in x.body for y in ast.walk(st)):
+                out.append(x)
+    return out
+
+
+def _hints_var(loop: ast.For) -> Optional[str]:
+    for y in ast.walk(loop):
+        if isinstance(y, ast.Call) and call_tail(y) == "search_tiered":
+            h = kwarg(y, "hints")
+            if isinstance(h, ast.Name):
+                return h.id
+    return None
 
 
 def _tier_hint_table(fn: Func, root: ast.AST) -> Dict[str, Set[str]]:
     """tier literal -> hint keys set in that branch (+ base keys)"""
     table: Dict[str, Set[str]] = {}
-    for loop in [x for x in ast.walk(root) if isinstance(x, ast.For) and isinstance(x.target, ast.Name) and x.target.id == "tier"]:
+    for loop in _tier_loops(root):
+        tv = loop.target.id
+        hv = _hints_var(loop)
+        if hv is None:
+            continue
         base: Set[str] = set()
         for st in loop.body:
-            if isinstance(st, (ast.Assign, ast.AnnAssign)) and isinstance(st.value, ast.Dict) and src(st.targets[0] if isinstance(st, ast.Assign) else st.target) == "hints":
+            if isinstance(st, (ast.Assign, ast.AnnAssign)) and isinstance(st.value, ast.Dict) and src(st.targets[0] if isinstance(st, ast.Assign) else st.target) == hv:
                 base |= {const_str(k) for k in st.value.keys if k is not None}
-            if isinstance(st, ast.If) and src(st.test) in ("now_str", "now") :
+            if isinstance(st, ast.If) and isinstance(st.test, ast.Name):
                 for s2 in st.body:
-                    if isinstance(s2, ast.Assign) and isinstance(s2.targets[0], ast.Subscript) and src(s2.targets[0].value) == "hints":
+                    if isinstance(s2, ast.Assign) and isinstance(s2.targets[0], ast.Subscript) and src(s2.targets[0].value) == hv:
                         base.add(const_str(s2.targets[0].slice))
         for st in loop.body:
-            if isinstance(st, ast.If) and isinstance(st.test, ast.Compare) and src(st.test.left) == "tier":
+            if isinstance(st, ast.If) and isinstance(st.test, ast.Compare) and src(st.test.left) == tv:
                 cur = st
                 while True:
                     tier = const_str(cur.test.comparators[0]) if isinstance(cur.test, ast.Compare) else None
                     keys = set(base)
                     for y in ast.walk(ast.Module(body=cur.body, type_ignores=[])):
-                        if isinstance(y, ast.Call) and isinstance(y.func, ast.Attribute) and y.func.attr == "update" and src(y.func.value) == "hints" and y.args and isinstance(y.args[0], ast.Dict):
+                        if isinstance(y, ast.Call) and isinstance(y.func, ast.Attribute) and y.func.attr == "update" and src(y.func.value) == hv and y.args and isinstance(y.args[0], ast.Dict):
                             keys |= {const_str(k) for k in y.args[0].keys if k is not None}
                     if tier:
                         table.setdefault(tier, set()).update(keys)
@@ -300,7 +331,7 @@ def rule_tier_independent(ctx) -> None:
     cs = ctx.func(T2PAR)
     cfg = ctx.cfg(cs)
     rd = ctx.rd(cs)
-    loops = [x for x in walk_no_defs(cs.node) if isinstance(x, ast.For) and isinstance(x.iter, ast.Name) and x.iter.id == "tiers"]
+    loops = _tier_loops(cs.node)
     if len(loops) != 1:
         raise AnalysisError("anchor-vanished: tier loop of collect_shard_hits")
     loop = loops[0]
@@ -363,7 +394,7 @@ def rule_sib_t2(ctx) -> None:
     t2 = ctx.func(T2CORE)
     cs = ctx.func(T2PAR)
     # the identity (sequential) walk is the loop in the `else` of the parallel gate: take the last tier loop in the function
-    loops = [x for x in walk_no_defs(t2.node) if isinstance(x, ast.For) and isinstance(x.target, ast.Name) and x.target.id == "tier"]
+    loops = [x for x in _tier_loops(t2.node) if _hints_var(x) is not None]
     if not loops:
         raise AnalysisError("anchor-vanished: sequential tier walk in t2_semantic")
     seq_tab = _tier_hint_table(t2, loops[-1])
@@ -375,8 +406,10 @@ def rule_sib_t2(ctx) -> None:
                   f"tier {tier}: sequential walk passes hints {sorted(a)} but the shard fan-out passes {sorted(b)} (a missing key falls back to the index default; "
                   "a None value makes the index raise and the tier comes back empty)")
     # hint values in collect_shard_hits come from its parameters, not constants
+    cs_loops = _tier_loops(cs.node)
+    cs_hv = _hints_var(cs_loops[0]) if cs_loops else None
     for y in walk_no_defs(cs.node):
-        if isinstance(y, ast.Call) and isinstance(y.func, ast.Attribute) and y.func.attr == "update" and src(y.func.value) == "hints" and y.args and isinstance(y.args[0], ast.Dict):
+        if isinstance(y, ast.Call) and isinstance(y.func, ast.Attribute) and y.func.attr == "update" and src(y.func.value) == cs_hv and y.args and isinstance(y.args[0], ast.Dict):
             for k, v in zip(y.args[0].keys, y.args[0].values):
                 names = {z.id for z in ast.walk(v) if isinstance(z, ast.Name)}
                 ok = bool(names & set(cs.params)) and not (isinstance(v, ast.Constant))
@@ -389,10 +422,34 @@ def rule_sib_t2(ctx) -> None:
         for f in ctx.prog.all_funcs("clematis.engine.stages.t2.core:t2_semantic."):
             calls += [x for x in walk_no_defs(f.node) if isinstance(x, ast.Call) and call_tail(x) == "_collect_shard_hits"]
     ctx.floor("C09.SIB-T2", "fan-out call of collect_shard_hits", len(calls), 1)
-    seq_vals = {"recent_days": "exact_recent_days", "clusters_top_m": "clusters_top_m", "sim_threshold": "sim_threshold", "now": "now_str"}
+    # what the sequential walk feeds the index: the variables in its hint values and in its search_tiered call
+    seq_loop = loops[-1]
+    shv = _hints_var(seq_loop)
+    need: Dict[str, str] = {}
+    builtin_names = {"int", "float", "str", "bool", "dict", "list"}
+    for y in ast.walk(seq_loop):
+        vals = []
+        if isinstance(y, (ast.Assign, ast.AnnAssign)) and isinstance(y.value, ast.Dict) and src(y.targets[0] if isinstance(y, ast.Assign) else y.target) == shv:
+            vals = list(zip(y.value.keys, y.value.values))
+        if isinstance(y, ast.Call) and isinstance(y.func, ast.Attribute) and y.func.attr == "update" and src(y.func.value) == shv and y.args and isinstance(y.args[0], ast.Dict):
+            vals = list(zip(y.args[0].keys, y.args[0].values))
+        if isinstance(y, ast.Assign) and isinstance(y.targets[0], ast.Subscript) and src(y.targets[0].value) == shv and const_str(y.targets[0].slice):
+            vals = [(y.targets[0].slice, y.value)]
+        for k, v in vals:
+            for z in ast.walk(v):
+                if isinstance(z, ast.Name) and z.id not in builtin_names and z.id != seq_loop.target.id:
+                    need[z.id] = f"hint {const_str(k)}"
+        if isinstance(y, ast.Call) and call_tail(y) == "search_tiered":
+            for kw in y.keywords:
+                if kw.arg in ("owner", "q_vec", "k") and isinstance(kw.value, ast.Name):
+                    need[kw.value.id] = kw.arg
+    if isinstance(seq_loop.iter, ast.Name):
+        need[seq_loop.iter.id] = "tiers"
+    if len(need) < 6:
+        raise AnalysisError(f"anchor-vanished: values the sequential tier walk passes to the index ({sorted(need)})")
     for c in calls:
         passed = {z.id for a in list(c.args) + [k.value for k in c.keywords] for z in ast.walk(a) if isinstance(z, ast.Name)}
-        missing = [v for v in seq_vals.values() if v not in passed] + [v for v in ("owner_query", "q_vec", "k_retrieval", "tiers") if v not in passed]
+        missing = [f"{v} ({why})" for v, why in sorted(need.items()) if v not in passed]
         ctx.check(not missing, "C09.SIB-T2", f"{t2.qual}/fan-out-arguments", t2.loc(c), "the fan-out forwards owner, query vector, k, tiers, threshold, top-m, recency window and now",
                   f"the shard fan-out does not forward {missing}: shards search with different parameters than the sequential walk")
     # cross-shard merge
@@ -406,10 +463,15 @@ def rule_sib_t2(ctx) -> None:
     ok = len(kparts) == 2 and kparts[0].startswith("-_qscore(") and "id" in kparts[1]
     ctx.check(ok, "C09.SIB-T2", f"{mg.qual}/merge-order", mg.loc(), f"cross-shard buckets are sorted by ({', '.join(kparts)})", f"cross-shard sort key is {kparts}, not (-qscore(score), id)")
     cfg = ctx.cfg(mg)
-    apps = [n for n in cfg.nodes for c in node_calls(n) if call_tail(c) == "append" and src(c.func.value) == "out"]
-    okd = bool(apps) and all(any((not p) and " in seen" in t for t, p in cfg.facts(n)) for n in apps)
+    # the merged list: first element of the returned tuple; the seen-set: a local bound to set()
+    outs = {r.value.elts[0].id for r in walk_no_defs(mg.node) if isinstance(r, ast.Return) and isinstance(r.value, ast.Tuple) and r.value.elts and isinstance(r.value.elts[0], ast.Name)}
+    seens = {(x.targets[0] if isinstance(x, ast.Assign) else x.target).id for x in walk_no_defs(mg.node) if isinstance(x, (ast.Assign, ast.AnnAssign)) and x.value is not None
+             and isinstance(x.value, ast.Call) and dotted(x.value.func) == "set" and isinstance((x.targets[0] if isinstance(x, ast.Assign) else x.target), ast.Name)}
+    apps = [n for n in cfg.nodes for c in node_calls(n) if call_tail(c) == "append" and src(c.func.value) in outs]
+    okd = bool(apps) and all(any((not p) and any(t.endswith(f" in {sn}") for sn in seens) for t, p in cfg.facts(n)) for n in apps)
     ctx.check(okd, "C09.SIB-T2", f"{mg.qual}/dedupe", mg.loc(), "a hit is appended only if its id was not seen", "cross-shard merge appends without the seen-id test")
-    stops = [n for n in cfg.nodes if n.kind == "stmt" and isinstance(n.ast, ast.Return) and any(p and "len(out) >= k_retrieval" in t for t, p in cfg.facts(n))]
+    kparam = mg.params[2] if len(mg.params) > 2 else "k_retrieval"
+    stops = [n for n in cfg.nodes if n.kind == "stmt" and isinstance(n.ast, ast.Return) and any(p and any(f"len({o}) >= {kparam}" in t for o in outs) for t, p in cfg.facts(n))]
     ctx.check(bool(stops), "C09.SIB-T2", f"{mg.qual}/stops-at-k", mg.loc(), "the merge returns as soon as k hits are collected", "the cross-shard merge does not stop at k")
 
 
